@@ -270,7 +270,7 @@ class Module:
         self.funcs[name] = {"params": [t for _, t in lean_params], "ret": rty, "nrandom": len(rparams), "outs": outs,
                             "is_method": is_method, "is_init": is_init}
         lname = name
-        return f"def {lname} {sig} : Py.M {lean_ty(rty)} :=\n{ind(body)}"
+        return "\n\n".join(tr.aux + [f"def {lname} {sig} : Py.M {lean_ty(rty)} :=\n{ind(body)}"])
 
 
 class NeedsLater(Exception):
@@ -320,6 +320,8 @@ class FnTr:
         self.outs: list[str] = []
         self.out_types: dict[str, object] = {}
         self.loop_stack: list[list[str]] = []
+        self.aux: list[str] = []       # lifted loop bodies / conditions (top-level definitions emitted before the function)
+        self.nloops = 0
 
     def fresh(self, p="t"):
         self.tmp += 1
@@ -748,6 +750,21 @@ class FnTr:
         tys = ("tuple", [env[v] for v in carried])
         return carried, tys
 
+    def free_vars(self, nodes, env, exclude):
+        names = set()
+        for x in nodes:
+            for n in ast.walk(x):
+                if isinstance(n, ast.Name) and n.id in env and n.id not in exclude:
+                    names.add(n.id)
+                if isinstance(n, ast.Attribute) and isinstance(n.value, ast.Name) and n.value.id == "self" and ("self_" + n.attr) in env \
+                        and ("self_" + n.attr) not in exclude:
+                    names.add("self_" + n.attr)
+        return sorted(names)
+
+    def loop_name(self):
+        self.nloops += 1
+        return self.info["name"].replace(".", "_") + f"_loop{self.nloops}"
+
     def for_stmt(self, st, env, rest):
         if st.orelse or not isinstance(st.target, ast.Name):
             raise Unsupported("for loop form")
@@ -761,12 +778,18 @@ class FnTr:
         i = st.target.id
         if i in carried:
             raise Unsupported("the loop variable is assigned before the loop and in it")
+        name = self.loop_name()
         envb = dict(env)
         envb[i] = "int"
         bodyc = self.stmts(st.body, 0, envb, carried)
         sty = lean_ty(tys)
-        code = (f"Py.bind (Py.forRange {n} ({tup(carried)} : {sty}) fun {i} (s : {sty}) =>\n"
-                f"    let {tup(carried) if carried else '_'} := s\n{ind(bodyc, 4)}) fun {tup(carried) if carried else '_'} =>\n{rest(env)}")
+        free = self.free_vars(st.body, env, set(carried) | {i})
+        fsig = "".join(f" ({v} : {lean_ty(env[v])})" for v in free)
+        self.aux.append(f"/-- body of loop {self.nloops} of `{self.info['name']}` (state: {', '.join(carried) or '-'}) -/\n"
+                        f"def {name}_body{fsig} ({i} : Int) (s : {sty}) : Py.M ({sty} × Bool) :=\n"
+                        f"  let {tup(carried) if carried else '_'} := s\n{ind(bodyc)}")
+        fargs = "".join(" " + v for v in free)
+        code = (f"Py.bind (Py.forRange {n} ({tup(carried)} : {sty}) ({name}_body{fargs})) fun {tup(carried) if carried else '_'} =>\n{rest(env)}")
         return self.wrap(pre, code)
 
     def while_stmt(self, st, env, rest):
@@ -782,11 +805,18 @@ class FnTr:
         carried, tys = self.loop_state(st, env)
         sty = lean_ty(tys)
         pat = tup(carried) if carried else "_"
+        name = self.loop_name()
         test, tt, _ = self._expr(st.test, env)
-        bodyc = self.stmts(st.body, 0, dict(env), None, lambda e: f".ok {tup(carried)}" if tup(carried).startswith("(") else f".ok ({tup(carried)})")
-        code = (f"Py.bind (Py.whileLoop (fun (s : {sty}) => let {pat} := s; {self.as_bool(test, tt)})\n"
-                f"    (fun (s : {sty}) =>\n      let {pat} := s\n{ind(bodyc, 6)})\n    {fuel} ({tup(carried)} : {sty})) fun {pat} =>\n{rest(env)}")
-        return code
+        okc = lambda e: f".ok {tup(carried)}" if tup(carried).startswith("(") else f".ok ({tup(carried)})"
+        bodyc = self.stmts(st.body, 0, dict(env), None, okc)
+        free = self.free_vars(list(st.body) + [st.test], env, set(carried))
+        fsig = "".join(f" ({v} : {lean_ty(env[v])})" for v in free)
+        fargs = "".join(" " + v for v in free)
+        self.aux.append(f"/-- condition of loop {self.nloops} of `{self.info['name']}` -/\n"
+                        f"def {name}_cond{fsig} (s : {sty}) : Bool :=\n  let {pat} := s\n  {self.as_bool(test, tt)}")
+        self.aux.append(f"/-- body of loop {self.nloops} of `{self.info['name']}` (state: {', '.join(carried) or '-'}) -/\n"
+                        f"def {name}_body{fsig} (s : {sty}) : Py.M {sty} :=\n  let {pat} := s\n{ind(bodyc)}")
+        return (f"Py.bind (Py.whileLoop ({name}_cond{fargs}) ({name}_body{fargs}) {fuel} ({tup(carried)} : {sty})) fun {pat} =>\n{rest(env)}")
 
 
 def _as_load(t):
